@@ -520,6 +520,10 @@ class Exec:
                 inc.batch = captured[-1]
             inc.killed = proc.dead
             fired = bool(proc.fired)
+            if proc.dead and proc.trace:
+                k, rel, _ = proc.trace[-1]
+                tmp = rel.endswith('.tmp')
+                sim.probe('kill_at_' + k + ('_tmp' if tmp else ''))
             kernel.set_current(None)
             sim.log.add(proc.pid, 'exit', [exit_kind, fired])
             if proc.dead and exit_kind == 'returned':
@@ -663,7 +667,7 @@ def explore_workload(job):
     out_name = 'out' + base['knobs']['ext']
 
     def is_results(rel):
-        return rel.endswith(out_name)
+        return out_name in rel
 
     summ = {'wseed': wseed, 'runs': 0, 'violations': [], 'states': set(),
             'fault_counts': {}, 'probes': {}, 'saves': 0, 'trials': 0,
@@ -706,9 +710,23 @@ def explore_workload(job):
         lvl1 += [(idx, f) for f in fl]
     summ['n_faults_total'] = len(lvl1)
     if len(lvl1) > budget:
+        # stratified sample: crash points inside writes first
         summ['complete'] = False
-        rng.shuffle(lvl1)
-        lvl1 = lvl1[:budget]
+        strata = {'kill_io': [], 'ki_io': [], 'trial': [], 'line': []}
+        for idx, f in lvl1:
+            k = ('line' if f['at'] == 'line' else 'trial'
+                 if f['at'] == 'trial' else
+                 'ki_io' if f['kind'] == 'ki' else 'kill_io')
+            strata[k].append((idx, f))
+        share = {'kill_io': 0.5, 'ki_io': 0.12, 'trial': 0.1, 'line': 0.28}
+        picked, rest = [], []
+        for k in sorted(strata):
+            rng.shuffle(strata[k])
+            q = int(budget * share[k])
+            picked += strata[k][:q]
+            rest += strata[k][q:]
+        rng.shuffle(rest)
+        lvl1 = (picked + rest)[:budget]
     second = []
     for idx, f in lvl1:
         plan = with_fault(base, idx, f)
